@@ -188,6 +188,46 @@ func init() {
 			return found
 		}
 
+		// Get / GlobalNames: the fields of the VM they assign (none) and read (the active code only)
+		reads := func(fd *ast.FuncDecl) []string {
+			set := map[string]bool{}
+			ast.Inspect(fd.Body, func(n ast.Node) bool {
+				if sel, ok := n.(*ast.SelectorExpr); ok {
+					if id, ok := sel.X.(*ast.Ident); ok && id.Name == "vm" {
+						set[sel.Sel.Name] = true
+					}
+				}
+				return true
+			})
+			out := []string{}
+			for k := range set {
+				out = append(out, k)
+			}
+			sort.Strings(out)
+			return out
+		}
+		get, globalNames := method("Get"), method("GlobalNames")
+		// the fields of VirtualMachine: the storage that can survive an invocation
+		vmFields := []string{}
+		for _, d := range f.Decls {
+			if g, ok := d.(*ast.GenDecl); ok && g.Tok == token.TYPE {
+				for _, sp := range g.Specs {
+					ts := sp.(*ast.TypeSpec)
+					if st, ok := ts.Type.(*ast.StructType); ok && ts.Name.Name == "VirtualMachine" {
+						for _, fl := range st.Fields.List {
+							if len(fl.Names) == 0 {
+								vmFields = append(vmFields, "embedded:"+str(fl.Type))
+							}
+							for _, n := range fl.Names {
+								vmFields = append(vmFields, n.Name)
+							}
+						}
+					}
+				}
+			}
+		}
+		sort.Strings(vmFields)
+
 		consts := map[string]string{}
 		for _, d := range f.Decls {
 			if g, ok := d.(*ast.GenDecl); ok && g.Tok == token.CONST {
@@ -233,6 +273,11 @@ func init() {
 		s += "/-- `runCodeInternal` and `Call` defer a closure that recovers and always reaches `vm.stop()` -/\ndef runRecoversAndStops : Bool := " + b(recoversAndStops(rci) && !deferHasReturn(rci)) + "\n"
 		s += "def callRecoversAndStops : Bool := " + b(recoversAndStops(call) && !deferHasReturn(call)) + "\n"
 		s += "/-- `applyOptions` registers the modules found among the globals in `vm.modules` -/\ndef applyOptionsRegistersModules : Bool := " + b(hasAssign(applyOpt, "vm.modules[name]", "module")) + "\n"
+		s += "/-- fields of the VM assigned in `Get` / in `GlobalNames` (a look-up must leave no trace) -/\ndef getAssigns : List String := " + strList(assigned(get)) + "\n"
+		s += "def globalNamesAssigns : List String := " + strList(assigned(globalNames)) + "\n"
+		s += "/-- fields of the VM that `Get` / `GlobalNames` read -/\ndef getReads : List String := " + strList(reads(get)) + "\n"
+		s += "def globalNamesReads : List String := " + strList(reads(globalNames)) + "\n"
+		s += "/-- every field of `VirtualMachine`, sorted -/\ndef vmFields : List String := " + strList(vmFields) + "\n"
 		s += "def maxFrameDepth : Nat := " + need("MaxFrameDepth") + "\n"
 		s += "def maxStackDepth : Nat := " + need("MaxStackDepth") + "\n"
 		s += "\nend Risor.Generated.C07\n"
